@@ -33,7 +33,7 @@
    consumes no bit either finishes the image or fails).  The `for` loops are structural. *)
 From Coq Require Import List NArith ZArith Bool.
 From Coq.Strings Require Import Byte.
-From MS Require Import Base.Bytes Base.Outcome Webp.Huffman Webp.BitBufSpec.
+From MS Require Import Base.Bytes Base.Outcome Webp.Huffman Webp.BitBufSpec Gen.WebpTables.
 Import ListNotations.
 Open Scope N_scope.
 
@@ -135,7 +135,7 @@ Definition alphabet_size (k : pkind) (cache_len : N) : N :=
 (* T::Symbol: u16 for the green code, u8 for the others *)
 Definition sym_width (k : pkind) : N := match k with KGreen => 16 | _ => 8 end.
 
-Definition CODE_ORDER : list N := [17; 18; 0; 1; 2; 3; 4; 5; 16; 6; 7; 8; 9; 10; 11; 12; 13; 14; 15].
+Definition CODE_ORDER : list N := Eval vm_compute in CODE_ORDER_SRC.   (* regenerated from the source: Gen/WebpTables.v *)
 
 Fixpoint set_nth (i : nat) (v : N) (l : list N) : list N :=
   match l, i with
@@ -230,27 +230,10 @@ Definition arb_readahead (g : group) : N := ht_longest (g_alpha g) + ht_longest 
 
 (* ---------------------------------------------------------------- back references *)
 (* (i8, u8) pairs; written as integers, dy converted below *)
-Definition DISTANCE_MAP_Z : list (Z * Z) := [
-  (0, 1);  (1, 0);  (1, 1);  (-1, 1); (0, 2);  (2, 0);  (1, 2);
-  (-1, 2); (2, 1);  (-2, 1); (2, 2);  (-2, 2); (0, 3);  (3, 0);
-  (1, 3);  (-1, 3); (3, 1);  (-3, 1); (2, 3);  (-2, 3); (3, 2);
-  (-3, 2); (0, 4);  (4, 0);  (1, 4);  (-1, 4); (4, 1);  (-4, 1);
-  (3, 3);  (-3, 3); (2, 4);  (-2, 4); (4, 2);  (-4, 2); (0, 5);
-  (3, 4);  (-3, 4); (4, 3);  (-4, 3); (5, 0);  (1, 5);  (-1, 5);
-  (5, 1);  (-5, 1); (2, 5);  (-2, 5); (5, 2);  (-5, 2); (4, 4);
-  (-4, 4); (3, 5);  (-3, 5); (5, 3);  (-5, 3); (0, 6);  (6, 0);
-  (1, 6);  (-1, 6); (6, 1);  (-6, 1); (2, 6);  (-2, 6); (6, 2);
-  (-6, 2); (4, 5);  (-4, 5); (5, 4);  (-5, 4); (3, 6);  (-3, 6);
-  (6, 3);  (-6, 3); (0, 7);  (7, 0);  (1, 7);  (-1, 7); (5, 5);
-  (-5, 5); (7, 1);  (-7, 1); (4, 6);  (-4, 6); (6, 4);  (-6, 4);
-  (2, 7);  (-2, 7); (7, 2);  (-7, 2); (3, 7);  (-3, 7); (7, 3);
-  (-7, 3); (5, 6);  (-5, 6); (6, 5);  (-6, 5); (8, 0);  (4, 7);
-  (-4, 7); (7, 4);  (-7, 4); (8, 1);  (8, 2);  (6, 6);  (-6, 6);
-  (8, 3);  (5, 7);  (-5, 7); (7, 5);  (-7, 5); (8, 4);  (6, 7);
-  (-6, 7); (7, 6);  (-7, 6); (8, 5);  (7, 7);  (-7, 7); (8, 6);
-  (8, 7)]%Z.
+(* the table itself is regenerated from webpsan/src/parse/lossless.rs on every run: Gen/WebpTables.v *)
+Definition DISTANCE_MAP_Z : list (Z * Z) := Eval vm_compute in DISTANCE_MAP_SRC.
 Definition DISTANCE_MAP : list (Z * N) := map (fun p => (fst p, Z.to_N (snd p))) DISTANCE_MAP_Z.
-Definition DISTANCE_MAP_LEN : N := 120.
+Definition DISTANCE_MAP_LEN : N := Eval vm_compute in DISTANCE_MAP_LEN_SRC.
 
 (* the `match dist_code.get()` of BackReference::buf_read *)
 Definition distance_of (dist_code width : N) : res N :=
